@@ -3,11 +3,14 @@
     the placeholder, eval_f64 returns Ok of the double obtained by applying the IEEE-754 operation
     (Flocq's Bplus/Bminus/Bmult/Bdiv/Bsqrt in round-to-nearest-even, Bopp, Babs, Bnearbyint in the four
     directed modes, the exact fmod of Base/F64.v) or the C library's pow at every node -- never Err.
-    What ties Flocq's operations to the machine's is the primitive/outcome correspondence (bit-exact). *)
+    C05_remainder: the model's % is the mathematical remainder x - trunc(x/y)*y computed exactly, with the
+    sign of the dividend, for all finite x and finite non-zero y; NaN for NaN operands, an infinite dividend
+    or a zero divisor; the dividend itself for a zero dividend or an infinite divisor (C fmod).
+    What ties Flocq's operations to the machine's is the primitive (L0) and outcome correspondence (bit-exact). *)
 From Coq Require Import List ZArith Reals Bool.
 From Flocq Require Import Core.Core IEEE754.BinarySingleNaN.
 From SC Require Import Base.Res Base.F64 Base.Oracle Lang.Syntax Lang.Literal Lang.Parser Eval.EvalF64 Eval.Run Gen.Tables
-  Spec.Surface Proofs.F64Facts Proofs.Top Proofs.NumberFrom.
+  Spec.Surface Proofs.F64Facts Proofs.Top Proofs.NumberFrom Proofs.FmodFacts.
 Import ListNotations.
 
 Theorem C05_nodewise_ieee_never_err :
@@ -26,6 +29,19 @@ Proof.
   now apply eval_f64_ieee.
 Qed.
 Print Assumptions C05_public.
+
+Theorem C05_remainder :
+  (forall x y : f64, is_finite x = true -> is_finite y = true -> (forall s, y <> B754_zero s) ->
+     B2R64 (fmod x y) = (B2R64 x - IZR (Ztrunc (B2R64 x / B2R64 y)) * B2R64 y)%R /\
+     is_finite (fmod x y) = true /\ Bsign (fmod x y) = Bsign x) /\
+  (forall x y : f64,
+     (is_nan x = true \/ is_nan y = true -> fmod x y = fnan) /\
+     (is_finite x = false -> fmod x y = fnan) /\
+     (forall s, y = B754_zero s -> fmod x y = fnan) /\
+     (forall s, x = B754_zero s -> is_nan y = false -> (forall s', y <> B754_zero s') -> fmod x y = x) /\
+     (forall s, is_finite x = true -> y = B754_infinity s -> fmod x y = x)).
+Proof. split; [exact fmod_spec|exact fmod_special]. Qed.
+Print Assumptions C05_remainder.
 
 (** floor / ceil / trunc / round are the mathematical roundings (ties away from zero for round) *)
 Theorem C05_roundings :
